@@ -1,12 +1,12 @@
 package pure
 
 import (
-	"sync/atomic"
 	"crypto/sha256"
 	"encoding/hex"
 	"fmt"
 	"math"
 	"sync"
+	"sync/atomic"
 	"time"
 
 	"github.com/apache/yunikorn-core/pkg/events"
@@ -376,12 +376,12 @@ func (c *c20) streamRun(r *det.Rng) {
 		}
 	}()
 	type sub struct {
-		count   uint64
-		n0, n1  int
-		stream  *events.EventStream
-		got     []*si.EventRecord
+		count    uint64
+		n0, n1   int
+		stream   *events.EventStream
+		got      []*si.EventRecord
 		lastSeen atomic.Pointer[si.EventRecord]
-		wg      sync.WaitGroup
+		wg       sync.WaitGroup
 	}
 	subs := make([]*sub, nSubs)
 	var wg sync.WaitGroup
